@@ -62,7 +62,7 @@ def podPorts (p : Pod) : List (String × HostPort) := p.hostPorts.map (fun hp =>
 def ephemeralTaint (t : Taint) : Bool :=
   (t.key == "node.kubernetes.io/not-ready" && (t.effect == "NoSchedule" || t.effect == "NoExecute")) ||
   (t.key == "node.kubernetes.io/unreachable" && t.effect == "NoSchedule") ||
-  (t.key == "node.cloudprovider.kubernetes.io/uninitialized" && t.effect == "NoSchedule" && t.value == "true") ||
+  (t.key == "node.cloudprovider.kubernetes.io/uninitialized" && t.effect == "NoSchedule") ||   -- `MatchTaint`: key and effect only
   (t.key == "karpenter.sh/unregistered" && t.effect == "NoExecute") ||
   t.key.startsWith "readiness.k8s.io/"
 
